@@ -20,13 +20,17 @@ def main(tier, args):
     if args.only: jobs = [j for j in jobs if j[0] == args.only]
     # the explorer process forks thousands of times: a small quarantine keeps its address space (and so the cost of fork) small
     vf.run_procs(res, jobs, env={"VERIF_DEADLINE_S": str(dl), "VERIF_C03_SHARED_CAP": str(cap),
-                                 "ASAN_OPTIONS": "detect_leaks=0:abort_on_error=0:quarantine_size_mb=16"}, log=log, jobs=16)
+                                 "ASAN_OPTIONS": "detect_leaks=0:abort_on_error=0:quarantine_size_mb=16",
+                                 # thorough: close+enable and re-open also as two separate operations (VERIF_C03_PASS_ON_CLOSED_FD stays off: a loop pass while an
+                                 # enabled event sits on a closed descriptor number is outside the property - the number is re-used by the loop's own wake-up fd)
+                                 "VERIF_C03_SPLIT_REUSE": "0" if tier == "quick" else "1"}, log=log, jobs=16)
     vf.finish(PID, tier, res, t0,
               rule="BFS over all histories (depth %d) of enable/disable/feed/drain/pass on 7 configurations of 3 real FdEvents (shared descriptor, read/write/read|write/read|except/except-only masks, persistent and one-shot, pipes and a socketpair) x 67 callback scripts "
                    "(disable self; re-arm self (one-shot enable / persistent disable+enable); disable/enable/disable+enable/destroy another event on the same or on another descriptor ready in the same pass; destroy + create a new event on a third descriptor or on the SAME descriptor; "
                    "destroy + close; re-initialise another event onto a third descriptor and enable it; disable/destroy one event and enable a third one in the same callback; scripts that are images of an earlier script under a renaming of identical events are skipped); "
                    "plus a life-cycle lane (depth %d; scripts none/disable-self/re-arm-self/destroy/enable) whose menu adds, at most twice per history, initialize() again onto the next descriptor or with the next mask (also on an enabled event, which must change nothing), "
-                   "destroy+re-create an event, and closing the peer of a pipe (EOF/HUP readiness). A pipe that already holds a byte is not fed again and an empty one is not drained (harness-side no-ops). "
+                   "destroy+re-create an event, closing the peer of a pipe (EOF/HUP readiness), and 'close the descriptor of a disabled event, enable() it (the kernel may refuse: the model follows enable()'s return value - true: enabled on that descriptor number, false: not enabled, never to be called), "
+                   "re-open a new pipe/socket with the SAME descriptor number' (thorough: also as two operations with anything but a pass in between); after such an operation only the safety clauses are judged in that history. A pipe that already holds a byte is not fed again and an empty one is not drained (harness-side no-ops). "
                    "Each evaluated history runs in a forked child under ASan on FOUR loops: epoll and select with per-fd records de-pooled, epoll and select with the record pool as shipped (recycling) and a 2-entry epoll_wait array (growth branch). "
                    "An evaluation in which the script's actor was never called does not depend on the script and is executed once per process and shared between its scripts (counter evaluations_shared_between_scripts; 'executions' counts forked children only); "
                    "every script is explored to depth-1 first and then to the full depth re-using the first round. "
@@ -39,4 +43,5 @@ def main(tier, args):
                            "events do not delete themselves inside their own callback (asserted illegal by the code)",
                            "initialize() on an enabled event changes nothing (the code refuses it); a re-initialised event keeps its persistent/one-shot mode",
                            "peer close is produced on pipes only (error/HUP on the write side of a socket is reported differently by the two kernel interfaces by design)",
+                           "what an event that was enable()d on a closed descriptor is due afterwards is not judged (only: no callback unless the model holds it enabled and its descriptor number is ready, none on destroyed events); no loop pass runs while that descriptor is still closed",
                            "the code under test is deterministic for a given history (sharing of script-independent evaluations relies on it, as replaying does)"])
